@@ -114,8 +114,8 @@ def arg_spec(a, sp, depth=0):
         if depth == 0:
             return {k: arg_spec(v, sp, 1) for k, v in a.items()}
         return a
-    if isinstance(a, list) and depth == 0:
-        return [arg_spec(x, sp, 1) for x in a]
+    if isinstance(a, (list, tuple)) and depth == 0:
+        return type(a)(arg_spec(x, sp, 1) for x in a)
     return a
 
 
@@ -141,6 +141,8 @@ def leaf_spec(l, sp=None):
         kw = {k: arg_spec(v, sp, 1) for k, v in l.kwargs.items()}
         if sp.coin("arg-shape"):
             val = [kw[n] for n in names if n in kw]
+            if not sp.force_names and sp.coin("arg-tuple", 30):
+                val = tuple(val)  # a Python tuple is accepted wherever a positional list is
         elif sp.coin("kw-order"):
             val = {k: kw[k] for k in reversed(list(kw))}  # keyword mappings carry no order
         else:
